@@ -503,6 +503,18 @@ def scales(spec):
     return float(tscale * tf), fscale * ff
 
 
+def int_guess(x, spec):
+    """spec["guess_int"]: the user types the phase as integers, e.g. Fields([0, 200]) (integer dtype).  Only where
+    rounding is a rough guess (every non-zero component at least 20 in the user's units); otherwise unchanged."""
+    x = np.asarray(x, dtype=float)
+    if not spec.get("guess_int"):
+        return x
+    nz = np.abs(x[x != 0])
+    if nz.size == 0 or float(np.min(nz)) < 20.0:
+        return x
+    return np.rint(x).astype(int)
+
+
 def phase_info(spec, guess_jitter=0.0):
     import WallGo
 
@@ -523,8 +535,8 @@ def phase_info(spec, guess_jitter=0.0):
     tscale, fscale = scales(spec)
     info = WallGo.PhaseInfo(
         temperature=(int(Tn) if spec.get("Tn_int") else float(Tn)),
-        phaseLocation1=WallGo.Fields(rel.to_user(hi)),
-        phaseLocation2=WallGo.Fields(rel.to_user(lo)),
+        phaseLocation1=WallGo.Fields(int_guess(rel.to_user(hi), spec)),
+        phaseLocation2=WallGo.Fields(int_guess(rel.to_user(lo), spec)),
     )
     fs = rel.scale_to_user(fscale)
     if spec.get("fscale_scalar"):
@@ -756,6 +768,8 @@ def st_guess(draw):
     if draw(st.sampled_from([True, True, False])):
         g = {"high": round(draw(st.floats(0.75, 2.2)), 3), "low": round(draw(st.floats(0.75, 1.6)), 3),
              "zero": draw(st.sampled_from([0.0, 0.0, 0.01, -0.02]))}
+        if draw(st.sampled_from([False, False, True])):
+            g["int"] = True   # typed as integers (integer dtype Fields), where the units make that a rough guess
     else:
         g = None
     tf = draw(st.sampled_from([1.0, 1.0, 0.5, 2.0]))
@@ -767,6 +781,9 @@ def with_guess(spec, gtf):
     g, tf, ff = gtf
     out = dict(spec, tscale_factor=tf, fscale_factor=ff)
     if g:
+        g = dict(g)
+        if g.pop("int", False):
+            out["guess_int"] = True
         out["guess"] = g
     return out
 
